@@ -269,7 +269,7 @@ def run_check(engine, tier='quick', seed=0, workers=None, digest_only=None, scal
             return any(x['class'] == v['class'] and x['key'] == v['key']
                        for x in payload[0]['violations'])
         minimised, calls = tape_vals, 0
-        if n_done < 6:
+        if n_done < 6 and not os.environ.get('SIMSTONE_NO_SHRINK'):
             if still(tape_vals):
                 minimised, calls = shrink(tape_vals, still, budget=150,
                                           deadline=time.monotonic() + budget_each)
